@@ -34,7 +34,7 @@ META = {
     ],
 }
 
-IMPORTS = ("From CM Require Import Harness.RunBase Harness.C16_run Model.Args Spec.ArgsSpec Generated.Tables.\n")
+IMPORTS = ("From CM Require Import Harness.RunBase Harness.C16_run Model.Args Spec.ArgsSpec Model.JwtOpts Spec.JwtOptsSpec Generated.Tables.\n")
 
 KF_NESTED = "kf_nested_selected_calls"
 KF_PYYAML_DROP = "kf_pyyaml_extra_args_dropped"
@@ -362,7 +362,7 @@ def kind_for(codemod, rows, tags=None, ast_mode=False):
     def info(name):
         return [(n, pv(v), a) for n, v, a in rows[name]]
     if codemod in ("requests-verify", "harden-ruamel", "enable-jinja2-autoescape", "safe-lxml-parser-defaults",
-                   "safe-lxml-parsing", "subprocess-shell-false", "fix-math-isclose"):
+                   "safe-lxml-parsing", "subprocess-shell-false", "fix-math-isclose", "jwt-decode-verify"):
         return ("HReplace", info(codemod))
     if codemod == "secure-flask-cookie":
         return ("HCookie",)
@@ -794,6 +794,10 @@ E2E = {
             [dict(kw=None, star=0, eq="", comma=", ", value=("n", "data")), dict(kw=None, star=0, eq="", comma=", ", value=g_name("yaml.Loader")),
              dict(kw=None, star=0, eq="", comma="", value=("n", "extra"))],
         ])),
+    "jwt-decode-verify": dict(
+        variants=[("import jwt\n", "jwt.decode"), ("import jwt as pyjwt\n", "pyjwt.decode"), ("from jwt import decode\n", "decode")],
+        must=lambda r: _jwt_must(r, True), forbid=("verify", "options"), nontrigger_must=lambda r: _jwt_must(r, False),
+        nest_attr="x", imports_added=[], semgrep=True, first_two=lambda r: [("n", "token"), ("n", "key")]),
     "subprocess-shell-false": dict(
         variants=[("import subprocess\n", "subprocess.run"), ("import subprocess as sp\n", "sp.check_output"), ("from subprocess import Popen\n", "Popen")],
         must=lambda r: [("shell", ("n", "True"))], forbid=(), nontrigger_must=lambda r: [("shell", ("n", "False"))], nest_attr="args",
@@ -812,6 +816,16 @@ E2E = {
         variants=[("import pickle\n", "pickle.load")], must=lambda r: [], forbid=(), nontrigger_must=None, nest_attr="x",
         imports_added=["import fickling"], imports_removed=["import pickle"], semgrep=False),
 }
+
+def _jwt_must(r, trigger):
+    from harness.c16_jwt import gen_dict_text
+    if not trigger:
+        return [("verify", ("n", "True"))] + ([("options", ("c", r.choice(["{'leeway': 10}", "{'verify_exp': True, 'require': ['exp']}", "{}"])))]
+                                               if r.random() < 0.5 else [])
+    if r.random() < 0.25:    # selected through the options pattern only (semgrep does not match a dict with a spread there)
+        return [("options", ("c", gen_dict_text(r, ast_mode=True, spread_p=0.0, force_verify_false=True)))]
+    return [("verify", ("n", "False"))] + ([("options", ("c", gen_dict_text(r, ast_mode=True, spread_p=0.35 if r.random() < 0.2 else 0.0)))] if r.random() < 0.75 else [])
+
 
 SWAP = {  # callee swaps of the ImportedCallModifier codemods: spelled callee -> (target, name)
     "url-sandbox": {"requests.get": ("safe_requests", "get")},
@@ -944,7 +958,8 @@ def e2e(ctx, codemods, nfiles, tag="a"):
     ctx.cli_runs += len(results)
     ctx.notes.append("e2e CLI wall times: " + ", ".join(f"{c} {w}s" for c, w in walls))
 
-    cases, meta = [], []
+    from harness import c16_jwt
+    cases, meta, jcases, jmeta = [], [], [], []
     for (cm, root, files, metas), (_, r, rep) in zip(projects, results):
         if r["rc"] != 0 or rep is None:
             ctx.mismatch(f"CLI run of {cm}", f"exit status {r['rc']}: {r['stderr'][-400:]}", {"op": "e2e", "codemod": cm, "project": core.b64tree(files)})
@@ -971,6 +986,16 @@ def e2e(ctx, codemods, nfiles, tag="a"):
                 stmts = [(name, apply_marks(ast_conv(bvals[name]), g)) for name, g in gstmts]
                 pred_lines = sorted(offset_to_pos(text, off)[0] for off, mk in calls if mk)
             got_lines = changes.get(rel, [])
+            if cm == "jwt-decode-verify" and c16_jwt.file_raises(stmts) and after == before and not got_lines:
+                # a `**spread` entry in the options dict of a selected call: the transformer raises, the file is left untouched
+                ctx.count("e2e.jwt.raised_file_untouched")
+                for name, e in stmts:
+                    d = c16_jwt.options_dict(e) if e[1] else None
+                    if d is not None and any(x[0] == "spread" for x in d):
+                        jcases.append("(%s, %s)" % (c16_jwt.c_delems(d), core.copt(None, "list delem")))
+                        jmeta.append({"codemod": cm, "file": rel, "stmt": name, "before": before, "after": after})
+                        ctx.case({"codemod": cm, "file": rel, "stmt": name}, nontrivial_key=("e2e-jwt-raise", before, name))
+                continue
             if pred_lines != got_lines and spec.get("marks_from_report") and set(got_lines) <= set(pred_lines) \
                     and len(set(got_lines)) == len(got_lines) and gstmts and not any(nested_selected(e) for _, e in stmts):
                 # the detector's verdict depends on the rest of the file (harden-pyyaml's pattern-inside): take it from the report
@@ -1010,6 +1035,14 @@ def e2e(ctx, codemods, nfiles, tag="a"):
                     ctx.violation(f"kf_none:{cm}:outside", f"{cm}: statement {name} disappeared from {rel}", {"op": "e2e", "codemod": cm, "project": core.b64tree({rel: before})})
                     continue
                 obs = ast_conv(avals[name])
+                if cm == "jwt-decode-verify" and e[0] == "call" and e[1]:
+                    d = c16_jwt.options_dict(e)
+                    if d is not None:
+                        od = c16_jwt.options_dict(obs) if obs[0] == "call" else None
+                        jcases.append("(%s, %s)" % (c16_jwt.c_delems(d), core.copt(c16_jwt.c_delems(od or []), "list delem")))
+                        jmeta.append({"codemod": cm, "file": rel, "stmt": name, "before": before, "after": after})
+                        ctx.count("e2e.jwt.options_dict:" + ("with-spread" if any(x[0] == "spread" for x in d) else "no-spread"))
+                        e, obs = c16_jwt.strip_options(e), (c16_jwt.strip_options(obs) if obs[0] == "call" else obs)
                 cases.append("(%s, %s, %s)" % (c_kind(kind), c_expr(e), c_expr(obs)))
                 meta.append({"codemod": cm, "file": rel, "stmt": name, "before": before, "after": after, "tree": e})
                 nt = nested_selected(e) or (has_marked(e) and len(e[3]) >= 2 and (any(a[1] for a in e[3]) or True))
@@ -1018,6 +1051,17 @@ def e2e(ctx, codemods, nfiles, tag="a"):
                 ctx.count(f"e2e.calls:{cm}:" + ("selected" if has_marked(e) else "not-selected"))
                 if nested_selected(e):
                     ctx.count(f"e2e.nested_selected:{cm}")
+    if jcases:
+        jbad = core.eval_bad_indices(ctx, "c16_e2ej", IMPORTS, "jwt_case", jcases, ["jwt_ast_model_ok", "jwt_spec_ok"])
+        for i in jbad["jwt_ast_model_ok"]:
+            m = jmeta[i]
+            ctx.mismatch("jwt-decode-verify end to end vs Model.JwtOpts.replace_opts_dict", f"options dict of {m['file']}:{m['stmt']} differs from the model",
+                         {"op": "e2e", "codemod": m["codemod"], "project": core.b64tree({m["file"]: m["before"]}), "after": m["after"], "stmt": m["stmt"]})
+        for i in jbad["jwt_spec_ok"][:1]:
+            m = jmeta[i]
+            ctx.violation(c16_jwt.KF_JWT, f"jwt-decode-verify: entries of the options dict of {m['file']}:{m['stmt']} were not preserved",
+                          {"op": "e2e", "codemod": m["codemod"], "project": core.b64tree({m["file"]: m["before"]}), "after": m["after"], "stmt": m["stmt"],
+                           "expected": "Spec.JwtOptsSpec.spec_opts: only the verify_* values become True; every other entry, `**spread` included, is kept in order"})
     bad = core.eval_bad_indices(ctx, "c16_e2e", IMPORTS, "tree_case", cases, ["ast_model_ok", "tree_spec_ok", "tree_delta_ok"])
     for i in bad["ast_model_ok"]:
         m = meta[i]
@@ -1059,6 +1103,8 @@ def run(ctx: core.Ctx):
     check_tables(ctx)
     kernel_direct(ctx, (300 if quick else 3000) * (3 if deep else 1), exhaustive=not quick)
     kernel_transformers(ctx, (25 if quick else 250) * (3 if deep else 1))
+    from harness import c16_jwt
+    c16_jwt.kernel(ctx, (150 if quick else 1500) * (3 if deep else 1))
     codemods = list(E2E)
     e2e(ctx, codemods, 14 if quick else 40)
     if not quick or deep:
@@ -1073,6 +1119,16 @@ def replay(ctx, body):
         call = cst.parse_expression(body["call"])
         new = L.replace_args(_Dummy(), call, [NewArg(*x) for x in body["newargs"]])
         print("replace_args(", body["call"], ",", body["newargs"], ") =", cst.Module([]).code_for_node(call.with_changes(args=new)))
+        return 0
+    if op == "jwt_dict":
+        import libcst as cst
+        from core_codemods.jwt_decode_verify import JwtDecodeVerifyTransformer as J
+        node = cst.parse_expression(body["dict"])
+        try:
+            print("input :", body["dict"], "\noutput:", cst.Module([]).code_for_node(node.with_changes(elements=J._replace_opts_dict(None, node))))
+        except AttributeError as ex:
+            print("input :", body["dict"], "\nraises:", ex, "(file left untouched)")
+        print("expected:", body.get("expected"))
         return 0
     if op == "transformer":
         out, fc = run_transformer(transformer_classes()[body["codemod"]], body["source"], {tuple(x) for x in body["selected"]})
